@@ -615,3 +615,28 @@ twin("C12-T6", "C12", "random weights with the complement written 1 - C", PR, "C
 twin("C12-T7", "C12", "additive share with the cumulative sum simplified", PR, "Covout.get_outcome", "additive = np.maximum(cov - np.maximum(cov - (1 - (np.cumsum(cov) - cov)), 0), 0)", "additive = np.maximum(cov - np.maximum(np.cumsum(cov) - 1, 0), 0)")
 mutant("C12-M28", "C12", "R12c", "empty combination contributes one", PR, "Covout.compute_impact_interaction", "            return 0.0", "            return 1.0")
 mutant("C12-M29", "C12", "R12c", "empty-combination test negated", PR, "Covout.compute_impact_interaction", "        if not any(progs):", "        if any(progs):")
+
+# ---- fourth sweep (optimization.py): survivors turned into mutants
+mutant("C14-M22", "C14", "R14g", "lower bounds multiplied by the target instead of divided", OP, "constrain_sum_bounded", "lb_scaled = lb / s", "lb_scaled = lb * s")
+mutant("C14-M23", "C14", "R14g", "solution divided by the target on the way back", OP, "constrain_sum_bounded", "sol = np.minimum(np.maximum(res[\"x\"], lb_scaled), ub_scaled) * s", "sol = np.minimum(np.maximum(res[\"x\"], lb_scaled), ub_scaled) / s")
+mutant("C14-M24", "C14", "R14g", "already-feasible proposal returned unscaled", OP, "constrain_sum_bounded", "        return x0_scaled * s", "        return x0_scaled")
+mutant("C14-M25", "C14", "R14g", "solver failure test inverted", OP, "constrain_sum_bounded", "    if not res[\"success\"]:", "    if res[\"success\"]:")
+mutant("C14-M26", "C14", "R14g", "solver equality constraint sum(x) + 1", OP, "constrain_sum_bounded", "lambda x: np.sum(x) - 1", "lambda x: np.sum(x) + 1")
+mutant("C14-M27", "C14", "R14g", "solver bounds with lower and upper swapped", OP, "constrain_sum_bounded", "bounds = [(lower, upper) for lower, upper in zip(lb_scaled, ub_scaled)]", "bounds = [(upper, lower) for lower, upper in zip(lb_scaled, ub_scaled)]")
+mutant("C14-M28", "C14", "R14h", "required total divided by the budget factor", OP, "TotalSpendConstraint.get_hard_constraint", "hard_constraints[\"initial_total_spend\"][t] = total_spend * self.budget_factor[idx]", "hard_constraints[\"initial_total_spend\"][t] = total_spend / self.budget_factor[idx]")
+mutant("C14-M29", "C14", "R14h", "current total subtracts program spending", OP, "TotalSpendConstraint.get_hard_constraint", "total_spend += instructions.alloc[prog].get(t)", "total_spend -= instructions.alloc[prog].get(t)")
+mutant("C14-M30", "C14", "R14h", "summed lower bounds start at one", OP, "TotalSpendConstraint.get_hard_constraint", "            minimum_spend = 0.0", "            minimum_spend = 1.0")
+mutant("C14-M31", "C14", "R14i", "optimal vector never written into the returned instructions", OP, "optimize", "    optimization.update_instructions(x_opt, model.program_instructions)\n", "")
+mutant("C14-M32", "C14", "R14i", "returned instructions not constrained", OP, "optimize", "    optimization.constrain_instructions(model.program_instructions, hard_constraints)\n    return model.program_instructions", "    return model.program_instructions")
+mutant("C14-M33", "C14", "R14i", "objective evaluated before the proposal is constrained", OP, "_objective_fcn", "        optimization.constrain_instructions(model.program_instructions, hard_constraints)\n        model.process()", "        model.process()\n        optimization.constrain_instructions(model.program_instructions, hard_constraints)")
+twin("C14-T7", "C14", "scaled bounds written with a reciprocal", OP, "constrain_sum_bounded", "lb_scaled = lb / s", "lb_scaled = lb * (1 / s)")
+mutant("C15-M17", "C15", "R15g", "objective subtracts a measurable", OP, "Optimization.compute_objective", "objective += measurable.eval(model, baseline)", "objective -= measurable.eval(model, baseline)")
+mutant("C15-M18", "C15", "R15g", "range of years includes the upper bound", OP, "Measurable.get_objective_val", "(model.t >= self.t[0]) & (model.t < self.t[1])", "(model.t >= self.t[0]) & (model.t <= self.t[1])")
+mutant("C15-M19", "C15", "R15g", "population filter inverted", OP, "Measurable.get_objective_val", "elif pop.name not in self.pop_names:", "elif pop.name in self.pop_names:")
+mutant("C15-M20", "C15", "R15g", "weight divides", OP, "Measurable.eval", "return self.weight * self.get_objective_val(model, baseline)", "return self.get_objective_val(model, baseline) / self.weight")
+mutant("C15-M21", "C15", "R15g", "link values not annualised", OP, "Measurable.get_objective_val", "val += np.sum(var.vals[t_filter] / var.dt)", "val += np.sum(var.vals[t_filter] * var.dt)")
+mutant("C15-M22", "C15", "R15h", "initial objective check accepts infinity", OP, "optimize", "if not np.isfinite(initial_objective):", "if np.isnan(initial_objective):")
+mutant("C15-M23", "C15", "R15i", "proposal blocks overlap", OP, "Optimization.update_instructions", "            idx += len(adjustment.adjustables)", "            idx += 1")
+mutant("C15-M24", "C15", "R15i", "relative bounds divide", OP, "Adjustable.get_hard_bounds", "else x0 * self.upper_bound", "else x0 / self.upper_bound")
+mutant("C15-M25", "C15", "R15i", "every year receives the first proposed value", OP, "SpendingAdjustment.update_instructions", "instructions.alloc[self.prog_name].insert(t, adjustable_values[i])", "instructions.alloc[self.prog_name].insert(t, adjustable_values[0])")
+twin("C15-T4", "C15", "time range written with the comparisons turned round", OP, "Measurable.get_objective_val", "(model.t >= self.t[0]) & (model.t < self.t[1])", "(model.t < self.t[1]) & (model.t >= self.t[0])")
